@@ -81,6 +81,20 @@ def run(ctx, info):
     for f in FLAGS:
         cases.append((fixed, 'act', f))
         cases.append((fixed, 'debatereport', f))
+    # the file's text must reach the library as it is: documents whose layout a "helpful" reader would normalise
+    # (a common indent on every line, first line indented less / more than the rest, leading blank lines, tabs, CR LF, a BOM-less
+    # first line of blanks, trailing blanks) — every seed, XML and JSON
+    body = 'SEC 1.\n  foo\nSEC 2.\n  bar **b**\n  ITEMS\n    ITEM (a)\n      x\n'
+    for j, lay in enumerate([lambda t: ''.join('  ' + l + '\n' for l in t.splitlines()),
+                             lambda t: ''.join('\t' + l + '\n' for l in t.splitlines()),
+                             lambda t: ''.join('    ' + l + '\n' for l in t.splitlines()).replace('    SEC 2.', '  SEC 2.'),
+                             lambda t: '\n\n   \n' + ''.join('  ' + l + '\n' for l in t.splitlines()),
+                             lambda t: '      ' + t,
+                             lambda t: t.replace('\n', '\r\n'),
+                             lambda t: t.replace('\n', '  \n') + '\n\n',
+                             lambda t: t.replace('  ', '\t')]):
+        for f in ([], ['--json'], ['--pretty']):
+            cases.append((lay(body), ['act', 'doc', 'statement'][j % 3], f))
     cases.append(('SCHEDULES foo\n', 'act', []))
     cases.append(('SCHEDULES foo\n', 'act', ['--json']))
     uris = [rng.choice(URIS) for _ in cases]
